@@ -347,9 +347,8 @@ def run_schedule_scenario(p, wd):
 
     def t_iter(out):
         pck = PlotfileCooker(path)
-        arrs = list(pck[0:2][pck.limit_level])
-        arrs.sort(key=lambda a: (a.shape, a.tobytes()))
-        return arrs
+        # the SEQUENCE is compared (the order is unspecified by C15 but must not depend on the schedule: C12)
+        return list(pck[0:2][pck.limit_level])
 
     def t_taste(out):
         from amr_kitchen.taste.taste import Taster
